@@ -33,6 +33,7 @@ ATOMS = [
     ("[]T{{1, 2}}[0].A", [obj(True, "PkgScope"), ("unkeyed", "T"), obj(True, "NoScope")], False),
     ("[]U{{1, 2}, {A: 3}}[0].A", [obj(True, "PkgScope"), ("unkeyed", "U"), obj(True, "NoScope"), obj(True, "NoScope")], False),
     ("map[string]T{\"k\": {1, 2}}[\"k\"].A", [obj(True, "PkgScope"), ("unkeyed", "T"), obj(True, "NoScope")], False),
+    ("[]*T{{1, 2}}[0].A", [obj(True, "PkgScope"), ("unkeyed", "T"), obj(True, "NoScope")], False),
     ("V", [obj(True, "LocalScope")], True),
     ("v", [obj(False, "LocalScope")], True),
 ]
